@@ -20,6 +20,9 @@ import (
 	"sync"
 
 	"github.com/invopop/gobl"
+	"github.com/invopop/gobl/cbc"
+	"github.com/invopop/gobl/dsig"
+	"github.com/invopop/gobl/head"
 	"github.com/invopop/gobl/schema"
 	"github.com/invopop/gobl/uuid"
 	"github.com/invopop/yaml"
@@ -40,8 +43,31 @@ type pipeEvent struct {
 }
 
 type pipeInput struct {
-	name string
-	data []byte // JSON
+	name   string
+	data   []byte // JSON
+	signed bool   // a signed envelope: the observers are run on it as it is
+}
+
+// signedVariant: the input enveloped, calculated, given a header with lists that are not in any sorted order
+// (tags, links, stamps, meta) and signed
+func signedVariant(in pipeInput, key *dsig.PrivateKey) (pipeInput, bool) {
+	env, err := pipeLoad(in.data)
+	if err != nil || env.Signed() || env.Calculate() != nil {
+		return pipeInput{}, false
+	}
+	env.Head.Tags = []string{"zeta", "alpha", "mid", "beta"}
+	env.Head.Meta = cbc.Meta{"zz": "1", "aa": "2", "mm": "3"}
+	env.Head.Notes = "n"
+	env.Head.Links = []*head.Link{{Key: "zlink", URL: "https://example.com/z"}, {Key: "alink", URL: "https://example.com/a"}}
+	if env.Sign(key) != nil {
+		return pipeInput{}, false
+	}
+	env.Head.Stamps = []*head.Stamp{{Provider: "zprov", Value: "1"}, {Provider: "aprov", Value: "2"}}
+	b, err := json.Marshal(env)
+	if err != nil {
+		return pipeInput{}, false
+	}
+	return pipeInput{name: in.name + "#signed", data: b, signed: true}, true
 }
 
 var fixedHeadUUID = uuid.MustParse("0190d2c4-0000-7000-8000-0000000000aa")
@@ -368,6 +394,15 @@ func pipeInputs(repo string, seed int64, ngen int) ([]pipeInput, error) {
 		ins = append(ins, pipeInput{name: name, data: data})
 		ins = append(ins, pipeVariants(name, data)...)
 	}
+	// signed envelopes made from a spread of the inputs so far
+	key := dsig.NewES256Key()
+	nsig := 0
+	for i := 0; i < len(ins) && nsig < 24; i += 1 + len(ins)/40 {
+		if sv, ok := signedVariant(ins[i], key); ok {
+			ins = append(ins, sv)
+			nsig++
+		}
+	}
 	r := rand.New(rand.NewSource(seed))
 	for i := 0; i < ngen; i++ {
 		d := randDoc(r)
@@ -434,6 +469,18 @@ func pipeRun(repo, seqFile string, perDoc int, seed int64, ngen int, procEvery i
 					ops = append(ops, "OtherProcess")
 				}
 				ops = append(ops, "Validate", "Calculate")
+				if in.signed {
+					ops = []string{"Verify", "Reserialise", "Validate", "Verify", "Digest", "Extract", "Reserialise", "Clone"}
+				}
+			} else if in.signed {
+				// the model's sequence without the steps that a signed envelope refuses
+				var keep []string
+				for _, o := range ops {
+					if o != "Calculate" && o != "OtherGoroutine" && o != "OtherProcess" {
+						keep = append(keep, o)
+					}
+				}
+				ops = append(keep, "Verify")
 			} else if r.Intn(3) == 0 {
 				ops = append([]string{"Calculate"}, ops...)
 			}
